@@ -401,6 +401,99 @@ Section Save.
   Qed.
 End Save.
 
+(* ---------- I/O errors inside a save ---------- *)
+Section FailedSave.
+  Variables (chain : list path) (p t : path) (chunks : list str).
+  Hypothesis t_not_p : t <> p.
+
+  Lemma firstn_forall {A} (P : A -> Prop) n (l : list A) : Forall P l -> Forall P (firstn n l).
+  Proof.
+    intro F. revert n. induction F as [|x l Hx _ IH]; intros [|n]; cbn [firstn]; constructor; auto.
+  Qed.
+
+  Lemma mkdirs_only_t' : Forall (only_file t) (map (fun d => MkdirAll d mode_dir) chain).
+  Proof. apply Forall_forall. intros m I. apply in_map_iff in I as (c & <- & _). exact I. Qed.
+
+  Lemma writes_only_t : Forall (only_file t) (map (Write t) chunks).
+  Proof. apply Forall_forall. intros m I. apply in_map_iff in I as (c & <- & _). reflexivity. Qed.
+
+  Lemma failed_only_t fp : Forall (only_file t) (failed_save_steps chain p t chunks fp).
+  Proof.
+    destruct fp; cbn [failed_save_steps].
+    - apply firstn_forall, mkdirs_only_t'.
+    - apply mkdirs_only_t'.
+    - apply Forall_app. split; [apply mkdirs_only_t'|]. repeat constructor.
+    - apply Forall_app. split; [apply mkdirs_only_t'|].
+      apply Forall_app. split; [repeat constructor|].
+      apply Forall_app. split; [apply firstn_forall, writes_only_t|repeat constructor].
+    - apply Forall_app. split; [apply mkdirs_only_t'|].
+      apply Forall_app. split; [repeat constructor|].
+      apply Forall_app. split; [apply writes_only_t|repeat constructor].
+    - apply Forall_app. split; [apply mkdirs_only_t'|].
+      apply Forall_app. split; [repeat constructor|].
+      apply Forall_app. split; [apply writes_only_t|repeat constructor].
+  Qed.
+
+  Lemma exec_all_app s l1 l2 : exec_all s (l1 ++ l2) = exec_all (exec_all s l1) l2.
+  Proof. unfold exec_all. apply fold_left_app. Qed.
+
+  Lemma unlink_last s l : fget t (exec_all s (l ++ [Unlink t])) = None.
+  Proof. rewrite exec_all_app. unfold exec_all, fget. cbn [fold_left exec fs_files]. apply pget_pdel_eq. Qed.
+
+  (* whatever system call of the save fails: the config path and every other file
+     are untouched and no ingest file stays behind *)
+  Lemma failed_save_harmless s fp :
+    fget t s = None ->
+    let s' := exec_all s (failed_save_steps chain p t chunks fp) in
+    fget p s' = fget p s /\
+    (forall q, q <> t -> fget q s' = fget q s) /\
+    fget t s' = None.
+  Proof.
+    intros FR s'. unfold s'.
+    split; [apply (exec_all_only_file t _ s p (failed_only_t fp)); congruence|].
+    split; [intros q N; apply (exec_all_only_file t _ s q (failed_only_t fp) N)|].
+    destruct fp; cbn [failed_save_steps].
+    - unfold fget. rewrite exec_all_mkdir_files; [exact FR|].
+      apply firstn_forall. apply Forall_forall. intros m I. apply in_map_iff in I as (c & <- & _). exact I.
+    - unfold fget. rewrite exec_all_mkdir_files; [exact FR|].
+      apply Forall_forall. intros m I. apply in_map_iff in I as (c & <- & _). exact I.
+    - rewrite !app_assoc. change [Close t; Unlink t] with ([Close t] ++ [Unlink t]). rewrite !app_assoc. apply unlink_last.
+    - rewrite !app_assoc. change [Close t; Unlink t] with ([Close t] ++ [Unlink t]). rewrite !app_assoc. apply unlink_last.
+    - rewrite !app_assoc. apply unlink_last.
+    - rewrite !app_assoc. change [Close t; Unlink t] with ([Close t] ++ [Unlink t]). rewrite !app_assoc. apply unlink_last.
+  Qed.
+
+  (* before the Ingest fix: a failing chmod leaves the (empty) ingest file, a failing
+     write leaves the ingest file with the part of the secrets written so far *)
+  Lemma failed_save_prefix_leaks s :
+    fget t s = None ->
+    fget t (exec_all s (failed_save_steps_prefix chain p t chunks FChmod)) <> None /\
+    forall j, fget t (exec_all s (failed_save_steps_prefix chain p t chunks (FWrite j))) <> None.
+  Proof.
+    intro FR.
+    assert (M : forall s0, fget t s0 = None ->
+                fget t (exec_all s0 (map (fun d => MkdirAll d mode_dir) chain)) = None).
+    { intros s0 F0. unfold fget. rewrite exec_all_mkdir_files; [exact F0|].
+      apply Forall_forall. intros m I. apply in_map_iff in I as (c & <- & _). exact I. }
+    split.
+    - cbn [failed_save_steps_prefix]. rewrite exec_all_app.
+      set (s1 := exec_all s (map (fun d => MkdirAll d mode_dir) chain)).
+      change (exec_all s1 ([CreateExcl t mode_file] ++ [Close t])) with (exec s1 (CreateExcl t mode_file)).
+      rewrite (exec_create_fresh t mode_file s1 (M s FR)). discriminate.
+    - intro j. cbn [failed_save_steps_prefix]. rewrite !exec_all_app.
+      set (s1 := exec_all s (map (fun d => MkdirAll d mode_dir) chain)).
+      assert (T3 : temp_is t [] (exec_all s1 [CreateExcl t mode_file; Chmod t mode_file])).
+      { unfold exec_all. cbn [fold_left]. unfold temp_is.
+        rewrite (exec_chmod t mode_file {| f_data := []; f_mode := mode_file |}); [reflexivity|].
+        apply exec_create_fresh. apply M. exact FR. }
+      assert (C : crash_cut (map (Write t) chunks) (firstn j (map (Write t) chunks))).
+      { clear. revert j. induction (map (Write t) chunks) as [|m l IH]; intros [|j]; cbn [firstn]; constructor. apply IH. }
+      destruct (cut_writes t chunks [] _ _ T3 C) as (d' & T & _).
+      match goal with |- fget t (exec_all ?X [Close t]) <> None => change (exec_all X [Close t]) with X end.
+      unfold temp_is in T. rewrite T. discriminate.
+  Qed.
+End FailedSave.
+
 (* the mode of the config file never depends on the file that was there: after
    the save it is 0600, and at every crash cut the path either still holds the
    old file (data and mode untouched) or holds a file of mode 0600 *)
